@@ -86,9 +86,36 @@ def branchTags (c : Cfg B) (ops : List (Op B)) (orc : List Outcome) : List Strin
       go r.2.1 rest r.2.2.2 (t :: acc)
   go [] ops orc []
 
+/-- `w<ms>` lets time pass: it is no operation of the writer, and nothing may be written during it.
+Returns the case without those ops, or the violation. -/
+def stripIdle (opsS obsS : String) : Except (String × String) (String × String) :=
+  let ops := splitList opsS ","
+  if !ops.any (·.startsWith "w") then .ok (opsS, obsS) else
+  let obs := obsS.splitOn ";"
+  let paired := ops.zip obs
+  if paired.any (fun (o, r) => o.startsWith "w" && r != "ok0/" && r != "ok0/#0") then
+    .error ("C19", "the buffered sink wrote to the socket while no operation was in progress (time-based flush)")
+  else
+    let keep := paired.filter fun (o, _) => !o.startsWith "w"
+    let ops' := keep.map (·.1)
+    .ok (if ops'.isEmpty then "-" else joinWith "," ops', joinWith ";" (keep.map (·.2) ++ obs.drop ops.length))
+
+/-- `err<k>!`: an error of kind k that is not the very error the socket returned -/
+def stripForeign (obsS : String) : String × Bool :=
+  let parts := obsS.splitOn ";"
+  let foreign := parts.any fun p => ((p.splitOn "/").headD "").endsWith "!"
+  (joinWith ";" (parts.map fun p => match p.splitOn "/" with
+    | r :: rest => joinWith "/" ((if r.endsWith "!" then (r.dropEnd 1).toString else r) :: rest)
+    | [] => p), foreign)
+
 def runMlw (prop : String) (f : List String) (obsS : String) : Verdict :=
   match f with
   | [_, capS, endS, orcS, opsS] =>
+    match stripIdle opsS obsS with
+    | .error v => ⟨false, obsS, "", some v, ["idle"], false⟩
+    | .ok (opsS, obsS) =>
+    let (obsS, foreign) := stripForeign obsS
+    if foreign then ⟨false, obsS, "", some ("C07", "an emit or flush failed with an error that is not the socket's error (same kind, different error)"), [], false⟩ else
     let c : Cfg B := ⟨capS.toNat?.getD 0, unhex endS⟩
     let orc := parseOracle orcS
     let ops := parseOps opsS
@@ -146,6 +173,9 @@ def runSpyModel (c : Cfg B) (q : Option Nat) (ops : List String) : List String :
 def runSpy (prop : String) (f : List String) (obsS : String) : Verdict :=
   match f with
   | [_, capS, qS, opsS] =>
+    match stripIdle opsS obsS with
+    | .error v => ⟨false, obsS, "", some v, ["idle"], false⟩
+    | .ok (opsS, obsS) =>
     let c : Cfg B := ⟨if capS == "d" then 512 else capS.toNat?.getD 0, [10]⟩
     let q := if qS == "u" then none else qS.toNat?
     let opsL := splitList opsS ","
